@@ -1,6 +1,6 @@
 (* Command dispatcher of the extracted engine. *)
 From Zorg Require Import Base.PyStr Base.Sexp Base.Res.
-From Zorg Require Import Model.FileGroups Model.Zid Model.Rename Model.Templates Model.SavedQ.
+From Zorg Require Import Model.FileGroups Model.Zid Model.Rename Model.Templates Model.SavedQ Model.ActionOpen.
 
 Definition commands : list (str * (list sexp -> sexp)) :=
   [ (S "expand", cmd_expand)
@@ -15,6 +15,8 @@ Definition commands : list (str * (list sexp -> sexp)) :=
   ; (S "build_body", cmd_build_body)
   ; (S "expand_saved", cmd_expand_saved)
   ; (S "names_in", cmd_names_in)
+  ; (S "action", cmd_action)
+  ; (S "targets", cmd_targets)
   ].
 
 Fixpoint find_cmd (n : str) (l : list (str * (list sexp -> sexp))) : option (list sexp -> sexp) :=
